@@ -73,7 +73,7 @@ def annotation_cases():
     for q in (0, 2):
         for L in (3, 5):
             for m in (N, 0, 3):
-                for s in (N, 1):
+                for s in (N, 0, 1):
                     for r in (N, 1, 2):
                         for o in (N, 1):
                             yield ('det', q, L, m, s, r, o)
